@@ -463,6 +463,46 @@ Proof.
   - reflexivity.
 Qed.
 
+(* ... and the further hypotheses of the run-level theorems that concern AGVs and outage records *)
+Theorem init_state_more i L x :
+  init_state d i L = Ok x ->
+  nodep_b x = true /\ agv_phase_b x = true /\ outages_b x && outage_nonneg_b x = true
+  /\ forallb (fun ts => tstate_eqb (t_st ts) TIdle && is_nil (b_store (t_buf ts))) (s_trans x) = true.
+Proof.
+  unfold init_state. intros H.
+  match type of H with (bind (mapM ?fj ?lj) _) = _ => destruct (mapM fj lj) as [jobs|] eqn:Ej; simpl in H; [|discriminate] end.
+  match type of H with (bind (mapM ?ft ?lt) _) = _ => destruct (mapM ft lt) as [trans|] eqn:Et; simpl in H; [|discriminate] end.
+  inversion H; subst x; clear H. apply mapM_Forall2 in Et.
+  assert (Htr : forallb (fun ts => tstate_eqb (t_st ts) TIdle && is_nil (b_store (t_buf ts))
+                                   && match t_occ ts with ONo => true | _ => false end
+                                   && match t_loc ts with LAt _ => true | _ => false end
+                                   && forallb oact_inactive (t_out ts)
+                                   && forallb (fun o => match o with OActive s e => time_leb s e | _ => true end) (t_out ts)) trans = true).
+  { eapply Forall2_forallb_r; [exact Et|]. intros [t ac] ts Hf. simpl in Hf.
+    match type of Hf with bind ?e _ = _ => destruct e as [loc|]; simpl in Hf; [|discriminate] end. inversion Hf; subst. simpl.
+    assert (A : forallb oact_inactive (map (fun _ : ocfg => OInactive NoTime) (ac_out ac)) = true) by (induction (ac_out ac); simpl; auto).
+    assert (B : forallb (fun o => match o with OActive s e => time_leb s e | _ => true end) (map (fun _ : ocfg => OInactive NoTime) (ac_out ac)) = true)
+      by (induction (ac_out ac); simpl; auto).
+    rewrite A, B. reflexivity. }
+  assert (Hm : forall ms, In ms (map (fun mc => mkMachine MIdle NoTime empty_buf empty_buf empty_buf 0%nat (map (fun _ : ocfg => OInactive NoTime) (mc_out mc))) (i_machs i)) ->
+                 m_st ms = MIdle /\ forallb oact_inactive (m_out ms) = true
+                 /\ forallb (fun o => match o with OActive s e => time_leb s e | _ => true end) (m_out ms) = true).
+  { intros ms Hin. apply in_map_iff in Hin. destruct Hin as [mc [<- _]]. simpl. split; [reflexivity|].
+    split; induction (mc_out mc); simpl; auto. }
+  split; [|split; [|split]].
+  - unfold nodep_b. simpl. eapply forallb_impl; [|exact Htr]. intros ts Hts. rewrite !andb_true_iff in Hts.
+    destruct Hts as [[[[_ Ho] _] _] _]. destruct (t_occ ts); auto; discriminate.
+  - unfold agv_phase_b. simpl. eapply forallb_impl; [|exact Htr]. intros ts Hts. rewrite !andb_true_iff in Hts.
+    destruct Hts as [[[[[Hs _] _] Hl] _] _]. destruct (t_st ts); try discriminate. exact Hl.
+  - unfold outages_b, outage_nonneg_b. simpl. rewrite !andb_true_iff. repeat split.
+    + apply forallb_forall. intros ms Hin. destruct (Hm ms Hin) as [E [A _]]. rewrite E. exact A.
+    + eapply forallb_impl; [|exact Htr]. intros ts Hts. rewrite !andb_true_iff in Hts.
+      destruct Hts as [[[[[Hs _] _] _] A] _]. destruct (t_st ts); try discriminate. exact A.
+    + apply forallb_forall. intros ms Hin. destruct (Hm ms Hin) as [_ [_ B]]. exact B.
+    + eapply forallb_impl; [|exact Htr]. intros ts Hts. rewrite !andb_true_iff in Hts. tauto.
+  - simpl. eapply forallb_impl; [|exact Htr]. intros ts Hts. rewrite !andb_true_iff in Hts. rewrite andb_true_iff. tauto.
+Qed.
+
 End F.
 
 (* ---------- the compiled instance is the one written in the document ---------- *)
